@@ -629,7 +629,7 @@ func main() {
 		}
 
 		c.Rule("Constructors: all %d types: every entry of tg/mt/e2e TypesConstructorMap() plus the generated helper types that have their own Encode/Decode but no constructor id (listed from the sources by gen_wrappers.sh): the 29 Vector<X> result boxes XVector{Elems} and the 261 class boxes XBox{X XClass} (no bare form). Values are built by reflection from a profile: scalars {z: zero, n: canonical non-zero, L (thorough): min ints / NaN / 254-byte strings / 256-byte bytes} x "+
-			"optional fields {none, all, each single flag-bit group (fields sharing a flag bit are switched together; present fields get their flag set like the generated setters do)} x vector length {0,1,2} x class-typed fields "+
+			"optional fields {none, all, each single flag-bit group (fields sharing a flag bit are switched together; present fields get their flag set like the generated setters do); for flag bits shared by several fields with encodable zero values also each field alone non-zero with the flag bit left to the generated SetFlags} x vector length {0,1,2} x class-typed fields "+
 			"{constructor 0, 1 of the class; thorough: every constructor of the class for each field in turn}; in addition every string / bytes field (and vector of them) of every constructor, one at a time, with a value of exactly 0, 253, 254, 255 (TL short/long string form boundary), 1023, 1024, 4095, 4096, 4097, 65535, 65536 and 2^20 bytes (plausible copy / pooling thresholds; quick: the last three only for bytes fields; class <kind>-field-len-<n>); every vector field of every type, one at a time, with exactly 1023, 1024, 1025, 2047, 2048, 2049, 4097 elements (bin.PreallocateLimit = 1024 and its multiples: the capacity is the header length mod 1024; quick: 1025, and 1024 for vectors of scalars and the Vector<X> boxes; minimal elements, the constructors of a class in turn; class vector-len-<n>); nesting depth 2 with the minimal constructor below; generic !X fields hold a tg function (and a nested generic). "+
 			"Round trip, boxed and bare: Encode succeeds; the same value appended to a used buffer (4 bytes already in it and 0xA5 in all spare capacity; 1 byte in it, exact-fit capacity of 0xA5) gives the same bytes (class encode-depends-on-buffer:<state>); Decode into a fresh constructor-map value (generic object fields pre-set to the expected type), then the buffer that was decoded from is overwritten with 0xA5, and only then the value must equal the encoded one (floats by bits, nil = empty vector; class value-aliases-source if it was equal before the overwrite), "+
 			"re-encoding gives identical bytes; decoding the encoding followed by 12 more bytes (a vector header announcing 2^31-1 elements and a long string header) gives the same value and leaves exactly those 12 bytes (classes decode-consumed-length, roundtrip-value:trailing-data). Decode safety (worker processes, 3 GiB limit): for 2 base encodings per constructor, decoded through the constructor (target from the constructor map), through DecodeBare, "+
@@ -661,6 +661,15 @@ func main() {
 				}
 				for g := range ti.groups {
 					rj = append(rj, wRT{ct.key(), profile{Scalars: s, Opt: fmt.Sprintf("g%d", g), Vec: 1, Pick: 0}})
+				}
+				// fields sharing one flag bit: each alone non-zero, the flag left to SetFlags
+				for g, grp := range ti.groups {
+					if s != "n" || len(grp.fields) < 2 || !soloable(ti, grp) {
+						continue
+					}
+					for k := range grp.fields {
+						rj = append(rj, wRT{ct.key(), profile{Scalars: s, Opt: fmt.Sprintf("s%d.%d", g, k), Vec: 1, Pick: 0}})
+					}
 				}
 			}
 			for _, f := range ti.fields {
@@ -870,4 +879,21 @@ func (f *failures) report(c *kit.Ctx) {
 		}
 		c.Set("violating_constructors_"+fam, l)
 	}
+}
+
+// soloable: every field of the group has an encodable zero value (no class / object fields, no flag-bit booleans).
+func soloable(ti *typeInfo, g group) bool {
+	for _, fi := range g.fields {
+		f := ti.fields[fi]
+		if f.isBit {
+			return false
+		}
+		switch f.typ.Kind() {
+		case reflect.String, reflect.Int, reflect.Int32, reflect.Int64, reflect.Float64, reflect.Bool:
+		case reflect.Slice: // nil encodes as an empty vector / empty bytes
+		default:
+			return false
+		}
+	}
+	return true
 }
